@@ -551,6 +551,8 @@ func main() {
 	for i := range perRoot {
 		perRoot[i] = map[string]int{}
 	}
+	best := map[string]*violationRec{}
+	var bestOrder []string
 	for ui, res := range results {
 		for _, k := range killersBy[ui] {
 			key := "decode-alloc-unbounded:" + k.Type
@@ -562,7 +564,17 @@ func main() {
 			case "stack":
 				key = "decode-stack-overflow:" + k.Type
 			}
-			r.Violation(key, what, map[string]interface{}{"phase": "hostile", "type": k.Type, "entry": k.Entry, "mutation": k.Class, "input": k.Input, "worker_died": k.Stderr})
+			kv := &violationRec{Key: key, What: what, Count: 1, Size: len(k.Input) / 2,
+				Replay: map[string]interface{}{"phase": "hostile", "type": k.Type, "entry": k.Entry, "mutation": k.Class, "input": k.Input, "worker_died": k.Stderr}}
+			if cur, ok := best[key]; ok {
+				cur.Count++
+				if kv.Size < cur.Size {
+					cur.What, cur.Replay, cur.Size = kv.What, kv.Replay, kv.Size
+				}
+			} else {
+				best[key] = kv
+				bestOrder = append(bestOrder, key)
+			}
 			counters["worker_deaths"]++
 		}
 		if res == nil {
@@ -595,9 +607,23 @@ func main() {
 			maxRatio, maxRatioAt = res.MaxRatioX, res.MaxRatioAt
 		}
 		for _, v := range res.Violations {
-			for i := 0; i < v.Count; i++ {
-				r.Violation(v.Key, v.What, v.Replay)
+			if cur, ok := best[v.Key]; ok {
+				cur.Count += v.Count
+				if v.Size < cur.Size {
+					cur.What, cur.Replay, cur.Size = v.What, v.Replay, v.Size
+				}
+			} else {
+				cp := *v
+				best[v.Key] = &cp
+				bestOrder = append(bestOrder, v.Key)
 			}
+		}
+	}
+	// per root cause the SMALLEST failing input over all units is the one reported (ties: first in unit order)
+	for _, k := range bestOrder {
+		v := best[k]
+		for i := 0; i < v.Count; i++ {
+			r.Violation(v.Key, v.What, v.Replay)
 		}
 	}
 	if skippedUnits > 0 {
